@@ -61,6 +61,10 @@ CHECKS = {
    text="The real Simulator.execute/simulate and Assignment.evaluate are executed path by path with z3 proxies on statement skeletons (if/elif/else, nesting, sequencing, guarded assignments with defaults, guard with stuttering) over a symbolic state; every path is closed against a reference semantics. The real sample() bodies are run with their module namespace rebound so that the arguments handed to scipy become symbolic terms; for every admissible parameter and every value allowed by scipy's documented contract the returned value lies in the declared support, and the contract's mean and variance equal the moments used by the analysis. Choice sites and whole trajectories are validated on concrete scripted runs (every discrete path of <= 2/3 iterations).",
    ref="DESIGN.md 3/C12", tech="per-path symbolic execution with z3 proxies (pathfork) + module-namespace injection for samplers; concrete scripted trajectory validation where symengine blocks symbolic execution",
    note="Trusted: reference semantics in checks/c12.py, scipy's documented contracts as stubs, z3. Numeric evaluation through symengine.subs/float cannot be executed symbolically: agreement of whole trajectories is validated concretely (reported as traces_validated_against_impl), not decided by the solver."),
+ "C09": dict(cat="translation_validation",
+   text="For guarded programs the real get_moment_given_termination sequence is compared at every n <= N with E[M 1{stopped by n}]/P(stopped by n) of the reference semantics by one cross-multiplied z3 query over all parameter values; the negated-guard indicator polynomial is checked on the types; the value reported after the loop is compared with an independently derived limit of the verified sequence (exponential-polynomial shape, |b/B| < 1 proved by the solver).",
+   ref="DESIGN.md 3/C09", tech="z3 equivalence of the reported conditional-moment sequence with the k-step reference semantics conditioned on termination; independent limit derivation",
+   note="Trusted: vlib/sem.py, z3. 'Stopped by n' is read operationally (one of the first n guard evaluations was false). Bounded: n <= 4/6; the limit leg only for numeric bases; divergence reporting only where the shape forces it; limits sympy cannot compute are refusals."),
 }
 NA_REASON = "check not built yet in this session (see DESIGN.md section 3 for the planned solver-based check)"
 
